@@ -36,6 +36,8 @@ def gen_history(R):
             h.append("setaxis E:" + show(Fraction(r.randint(0, 64), 32)))
         elif x < 0.22:
             h.append(f"hook {r.choice(['add', 'add', 'remove'])} {r.choice(['record', 'limitF:600', 'limitF:100', ext])}")
+        elif x < 0.25:
+            h.append(r.choice(["hookctx enter " + r.choice(["record", "limitF:600"]), "hookctx exit x", "hookctx exitraise x"]))
         elif x < 0.27:
             pts = " ".join(";".join(show(Fraction(r.randint(-160, 160), 32)) for _ in range(3)) for _ in range(r.randint(1, 4)))
             h.append("trace polyline " + pts)
@@ -141,22 +143,8 @@ def correspond(R, hs, label):
     done = []
     for h in hs:
         lines, recs, im = bc.run_impl(h)
-        # the oracle reads the harness-side lines (geometry), expanded like the model-side ones
-        orig = []
-        for ln in h:
-            if ln.startswith("trace "):
-                continue
-            orig.append(ln)
-        olines = []
-        j = 0
-        for ln in lines:
-            if ln.startswith("hook ") and j < len(orig):
-                while j < len(orig) and not orig[j].startswith("hook "):
-                    j += 1
-                olines.append(orig[j] if j < len(orig) else ln)
-                j += 1
-            else:
-                olines.append(ln)
+        # the oracle reads the harness-side form of `hook …` lines (they carry the extrusion geometry)
+        olines = [src if src.startswith("hook ") else ln for ln, src in zip(lines, im.src_lines)]
         for step, msg, tag in oracle(olines, recs, im):
             R.fail({"history": h, "step_line": olines[step]}, msg, tag=tag, step=step)
         done.append((lines, recs))
